@@ -57,6 +57,13 @@ HELPERS = {
     "Inner": {"type": "object", "properties": {"x": {"type": "integer", "default": 7}, "y": {"type": "string"}}},
     "Pair": {"type": "object", "required": ["k"],
              "properties": {"k": {"type": "integer"}, "w": {"type": "boolean", "default": True}}},
+    # types that carry a TYPE-level default (impl Default for the type itself)
+    "ShortD": {"type": "string", "maxLength": 16, "default": "batch"},
+    "EnumNT": {"type": "integer", "enum": [1, 2, 3], "default": 2},
+    "AliasD": {"$ref": "#/definitions/Color", "default": "green"},
+    "AliasS": {"type": "string", "default": "al"},
+    "Level": {"type": "string", "enum": ["lo", "hi"], "default": "hi"},
+    "CfgD": {"type": "object", "properties": {"n": {"type": "integer"}}, "default": {"n": 4}},
 }
 
 # kind -> (schema, valid values, default candidates)
@@ -77,7 +84,27 @@ KINDS = {
     "inner": ({"$ref": "#/definitions/Inner"}, [{}, {"x": 1, "y": "s"}], [{"x": 3}, {}]),
     "pair": ({"$ref": "#/definitions/Pair"}, [{"k": 1}, {"k": 2, "w": False}], [{"k": 4}]),
     "onoff": ({"type": "string", "enum": ["on", "off"]}, ["on", "off"], ["off"]),
+    # property types WITH a type-level default, by reference …
+    "shortd": ({"$ref": "#/definitions/ShortD"}, ["", "batch", "abcdefghijklmnop"], ["dd"]),
+    "enumnt": ({"$ref": "#/definitions/EnumNT"}, [1, 3], [3]),
+    "aliasd": ({"$ref": "#/definitions/AliasD"}, ["red", "blue"], ["blue"]),
+    "aliass": ({"$ref": "#/definitions/AliasS"}, ["", "zz"], ["q"]),
+    "level": ({"$ref": "#/definitions/Level"}, ["lo", "hi"], ["lo"]),
+    "cfgd": ({"$ref": "#/definitions/CfgD"}, [{}, {"n": 1}], [{"n": 2}]),
+    # … and inline (titled, the schema itself carries `default`: a non-required property of these kinds is
+    # always in state Default, a required one is Required with a type that implements Default)
+    "ishort": ({"title": None, "type": "string", "maxLength": 5, "default": "abc"}, ["", "abcde"], None),
+    "ilevel": ({"title": None, "type": "string", "enum": ["lo", "hi"], "default": "hi"}, ["lo", "hi"], None),
+    "ienumnt": ({"title": None, "type": "integer", "enum": [1, 2, 3], "default": 2}, [1, 3], None),
+    "icfg": ({"title": None, "type": "object", "properties": {"m": {"type": "integer"}}, "default": {"m": 5}},
+             [{}, {"m": 1}], None),
 }
+# kinds used by curated corpus cases only (recursive types; their definitions are in the corpus case)
+KINDS["node"] = ({"$ref": "#/definitions/Node"}, [{"val": 1}, {"val": 2, "next": {"val": 3}}], [])
+KINDS["rb"] = ({"$ref": "#/definitions/RB"}, [{}, {"next": {}, "kids": [{}]}], [])
+KINDS["rbs"] = ({"type": "array", "items": {"$ref": "#/definitions/RB"}}, [[], [{}, {"next": {}}]], [])
+CORPUS_ONLY = {"node", "rb", "rbs"}
+TD_KINDS = ["shortd", "enumnt", "aliasd", "aliass", "level", "cfgd", "ishort", "ilevel", "ienumnt", "icfg"]
 # string arguments for the `&str` / `String` setter modes: (value, schema-valid?)
 STR_ARGS = {
     "color": [("red", True), ("purple", False), ("", False), ("Red", False)],
@@ -85,9 +112,16 @@ STR_ARGS = {
     "pat": [("abc", True), ("ABC", False), ("", False), ("ab1", False)],
     "onoff": [("on", True), ("maybe", False)],
     "str": [("anything", True), ("", True)],
+    "shortd": [("ok", True), ("x" * 17, False), ("é" * 16, True)],
+    "ishort": [("ok", True), ("abcdef", False)],
+    "level": [("lo", True), ("mid", False)],
+    "ilevel": [("hi", True), ("", False)],
+    "aliasd": [("red", True), ("pink", False)],
+    "aliass": [("anything", True), ("", True)],
 }
+ENUM_INTS = {"enumnt": (1, 2, 3), "ienumnt": (1, 2, 3)}
 INT_RANGE = {"int": (-2 ** 63, 2 ** 63 - 1), "u8": (0, 255), "i32": (-2 ** 31, 2 ** 31 - 1)}
-INT_ARGS = [0, 7, -1, 255, 256, 2 ** 31, -2 ** 31 - 1, 2 ** 40]
+INT_ARGS = [0, 7, -1, 255, 256, 2 ** 31, -2 ** 31 - 1, 2 ** 40, 1, 2, 3]
 
 # JSON names; the sanitised identifiers are pairwise distinct and none is `extra`
 NAMES = ["a", "b", "c", "d", "e", "f", "g", "h", "type", "ref", "fn", "match", "self", "fooBar", "kebab-name",
@@ -103,30 +137,44 @@ HELPER_META = {
 }
 
 
-def gen_struct(rnd, n):
+HELPER_META["CfgD"] = {"props": [{"json": "n", "kind": "int", "state": "optional", "default": None}], "addl": None}
+
+
+def gen_struct(rnd, n, tprefix="T", force=()):
+    """force: [(kind, state)] for the first properties (state "required" | "optional")"""
+    n = max(n, len(force))
     names = rnd.sample(NAMES, n)
     props = {}
     required = []
     spec = []
-    for nm in sorted(names):
-        kind = rnd.choice(sorted(KINDS))
+    for j, nm in enumerate(sorted(names)):
+        kind = rnd.choice(sorted(k_ for k_ in KINDS if k_ not in CORPUS_ONLY))
+        fstate = None
+        if j < len(force):
+            kind, fstate = force[j]
         if kind == "onoff" and not nm.isascii():
             # the inline enum would be named after the property (S0Übung); py/world.py writes type names
-            # into the dispatch table with json.dumps, whose \uXXXX escapes are not Rust
+            # into the dispatch table with json.dumps, whose \\uXXXX escapes are not Rust
             kind = "color"
         schema, vals, defs = KINDS[kind]
-        s = dict(schema)
+        s = json.loads(json.dumps(schema))
+        inline = defs is None
+        if inline:
+            s["title"] = "%sx%d%s" % (tprefix, j, kind.capitalize())
         r = rnd.random()
-        if r < 0.4:
+        if fstate == "required" or (fstate is None and r < 0.4):
             state = "required"
             required.append(nm)
-        elif r < 0.7 or not defs:
+        elif inline:
+            state = "default"          # the schema's own `default`
+        elif fstate == "optional" or r < 0.7 or not defs:
             state = "optional"
         else:
             state = "default"
             s["default"] = rnd.choice(defs)
         props[nm] = s
-        spec.append({"json": nm, "kind": kind, "state": state, "default": s.get("default")})
+        spec.append({"json": nm, "kind": kind, "state": state,
+                     "default": s.get("default") if state == "default" else None})
     sch = {"type": "object", "properties": props}
     if required:
         sch["required"] = required
@@ -149,7 +197,12 @@ def gen_cases(ctx):
         for j in range(3):
             n = sizes[k % len(sizes)] if m < 9 else rnd.choice(sizes)
             k += 1
-            sch, spec = gen_struct(rnd, n)
+            force = ()
+            if j == 0 and m < len(TD_KINDS):
+                # every seed: each type-with-default kind once Required and once not, in one struct
+                force = ((TD_KINDS[m], "required"), (TD_KINDS[m], "optional"),
+                         (TD_KINDS[(m + 3) % len(TD_KINDS)], "required"))
+            sch, spec = gen_struct(rnd, n, "S%d" % j, force)
             nm = "S%d" % j
             defs[nm] = sch
             meta[nm] = spec
@@ -223,6 +276,8 @@ def field_modes(gen, prop, sfield, tft):
             modes.append("s")
         if any(x.endswith("TryFrom<::std::string::String>") for x in tr):
             modes.append("S")
+        if any(x.endswith("TryFrom<i64>") for x in tr):
+            modes.append("i")
     if e["kind"] == "option":
         m = re.match(r"^:: std :: option :: Option < (.*) >$", sfield["ty"])
         if m:
@@ -359,10 +414,20 @@ def arg_ok(kind, mode, val):
     if mode in ("v", "o"):
         return True
     if mode == "i":
+        if kind in ENUM_INTS:
+            return val in ENUM_INTS[kind]
         lo, hi = INT_RANGE[kind]
         return lo <= val <= hi
-    if kind in ("color",):
+    if kind in ("color", "aliasd"):
         return val in HELPERS["Color"]["enum"]
+    if kind in ("level", "ilevel"):
+        return val in ("lo", "hi")
+    if kind == "shortd":
+        return len(val) <= 16
+    if kind == "ishort":
+        return len(val) <= 5
+    if kind == "aliass":
+        return True
     if kind == "onoff":
         return val in ("on", "off")
     if kind == "short":
@@ -703,6 +768,22 @@ def run(ctx):
             spec = metas[i].get(name)
             structs.append(StructCase(i, g, name, sid, props, sfields, spec))
     ctx.log("structs with a running builder driver:", len(structs))
+    # coverage that must not disappear: Required / non-required properties whose TYPE has a type-level default
+    td = {"required": {}, "other": {}}
+    for sc in structs:
+        if sc.spec is None:
+            continue
+        ent = sc.gen["dump"]["entries"]
+        for p_ in sc.props:
+            e_ = ent[str(p_["type_id"])]
+            if e_["kind"] == "option":
+                e_ = ent[str(e_["id"])]
+            if e_["kind"] in ("newtype", "struct", "enum") and e_.get("default") is not None:
+                b_ = td["required" if p_["state"]["k"] == "required" else "other"]
+                b_[e_["kind"]] = b_.get(e_["kind"], 0) + 1
+    ctx.coverage["props_whose_type_has_a_type_level_default"] = td
+    ctx.oblige("coverage: Required properties whose type is a newtype / struct / enum with a type-level default "
+               "are present", all(td["required"].get(k_, 0) > 0 for k_ in ("newtype", "struct", "enum")), json.dumps(td))
     reqs = []
     owner = []
     for si, sc in enumerate(structs):
@@ -926,6 +1007,19 @@ def emulate_mutation(ctx, w, structs):
                 # a Required slot initialised with Ok(Default::default())
                 d = sc.res[(q, "de")]
                 sc.res[(q, "build")] = {"ok": d.get("ok", {}), "fields": d.get("fields", [])}
+            elif MUT == "required-typedefault-starts-ok" and "err" in b:
+                # a Required property whose type is a newtype/struct with a type-level default starts Ok(Default)
+                ent = sc.gen["dump"]["entries"]
+                soft = {p["name"] for p in sc.props if p["state"]["k"] == "required"
+                        and ent[str(p["type_id"])]["kind"] in ("newtype", "struct")
+                        and ent[str(p["type_id"])].get("default") is not None}
+                exp_ok, off, obj = expected_direct(sc, sq)
+                rest = [o for o in off if not (o[1] == "missing" and o[0] in soft)]
+                if len(rest) != len(off):
+                    if not rest:
+                        sc.res[(q, "build")] = {"ok": obj, "fields": []}
+                    elif rest[0][1] == "missing":
+                        b["err"] = "no value supplied for %s" % rest[0][0]
             elif MUT == "default-differs" and "ok" in b:
                 # builder default of a defaulted property differs from the serde default
                 for k, p in enumerate(sc.props):
